@@ -342,6 +342,8 @@ def base_case(draw, name, max_len=8, max_src=4, steps="full", min_len=0, min_src
             v["initial"] = uids.fix(("EQ",))  # an explicit initial that is equal to everything
         elif choice == 4:
             v["initial"] = uids.fix(("GR", "eq", "ValueError"))  # ... or that cannot be compared at all
+        elif choice == 5 and draw(st.booleans()):
+            v["initial"] = uids.fix(("AW",))  # a handle (awaitable object) as the start value: data, as in functools
     elif name == "reduce_builtin":
         params["op"] = draw(st.sampled_from(["add", "max", "add", "none"]))
         if params["op"] == "none" and draw(st.booleans()):
